@@ -36,13 +36,27 @@ CLAIM = {
             'every diagonal length <= n, a left inverse of A + D whenever the pivots are non-zero, which holds '
             'whenever every partial sum is invertible; longer diagonals give IndexError. peig / leig / '
             'least_right_singular_vectors / get_principal_component_matrix select exactly what their names say for '
-            'every argsort / eig / svd result satisfying its contract. dB/linear/dBm and SNR/EbN0 conversions '
+            'every argsort / eig / svd result satisfying its contract. gmd (geometric mean decomposition, the '
+            'Givens sweep of Jiang/Hager/Li): for every full SVD A = U S V^H of a real or complex m x n matrix '
+            '(unitary U, V, positive non-increasing singular values, sigma_bar their geometric mean) the '
+            'statement-by-statement array model of the sweep raises nothing (every index read is in range) and '
+            'returns Q, R, P with Q R P^H = A, Q^H Q = 1, P^H P = 1, R upper triangular with constant diagonal '
+            'sigma_bar (theorems gmd_correct : GmdStatement over R and gmd_correct_complex : GmdStatementComplex '
+            'over C, all sizes; loop invariant with the product invariant d[k] * prod(unused S) = '
+            'sigma_bar^(p-k), which forces a partner on the other side of sigma_bar in every step). '
+            'dB/linear/dBm and SNR/EbN0 conversions '
             '(definitions regenerated from the source) are mutually inverse on the (positive) reals.',
     'note': 'trusted: numpy kernels (contracts checked numerically on every case, not proved), binary64 rounding '
             '(correspondence compared within 1e-9 of the absolute-value product bound), the harness and the '
-            'conversion translator plugin. PARTIAL: gmd - the full statement GmdStatement is not proved; its '
-            'executable model is tied by correspondence, each Givens step is proved '
-            '(gmd_rotation_step_partial) and the decomposition is checked numerically per case. KNOWN FINDING: the '
+            'conversion translator plugin. gmd: the theorems are about the executable array model '
+            '(Model/C20Gmd.lean, hand-written statement by statement from util.misc.gmd, NOT regenerated from the '
+            'source): it is tied to the code by the seeded differential correspondence (real and complex inputs, '
+            'tol = 0 and tol > 0, the value sigma_bar the code computes is passed through and checked to be the '
+            'geometric mean) and the decomposition is additionally checked by a first-principles oracle on every '
+            'case, including inputs whose singular values equal sigma_bar exactly in binary64 (the no-rotation '
+            'branch). The theorems assume exact real arithmetic, the default tol (all singular values in use, all '
+            'positive) and take sigma_bar with sigma_bar^p = prod S; truncation by tol > 0 (p < min(m, n)) is '
+            'covered by correspondence only. KNOWN FINDING: the '
             'principal-angle chordal distance disagrees with the projector forms for subspaces of different '
             'dimension (negative witness chordal_angles_disagree_when_dims_differ). Four defects fixed in the '
             'worktree (whitening with repeated eigenvalues; get_principal_component_matrix integer dtype and wide '
@@ -2798,7 +2812,8 @@ def check(ctx):
         '(G (A^H A) = 1; Q^H Q = 1, A = Q R, R upper triangular invertible; M = U diag(s) V^H with unitary factors; '
         'A V = V diag(D); argsort = sorting permutation) are checked numerically on every case',
         'harness/gen/c20.py (float-expression fragment of util/conversion.py -> Generated/C20Conversion.lean)',
-        'gmd: only the Givens step is proved; the sweep is an executable model tied by correspondence',
+        'gmd: the whole sweep is proved correct on the executable array model (gmd_correct, gmd_correct_complex); '
+        'the model is tied to the code by correspondence (hand-written model, not regenerated)',
     ]
     ctx.required_branches = ['complex', 'real', 'tall', 'square', 'proj:neardep', 'proj:cond', 'proj:gint',
                              'chordal:dims-equal', 'chordal:dims-differ', 'whiten:rank1', 'whiten:spectrum',
